@@ -109,6 +109,7 @@ class Exec:
         if name in mod.functions: return FuncRef(mod, None, mod.functions[name])
         if name in mod.classes: return ClassRef(mod.classes[name])
         if name in mod.constants:
+            if name in S.shared_mutable_names(mod): raise Unsupported("module-level container %s.%s is mutated in place: its content depends on earlier calls" % (mod.name, name))
             real = self.real_constant(mod, name)
             if real is not NotImplemented: return real
             return self.const_eval(mod, mod.constants[name])
@@ -322,6 +323,7 @@ class Exec:
                     yield st, FuncRef(k.module, k, m, bound=(None if attr in k.statics else base)); return
                 for kk in S.mro(cls):
                     if attr in kk.attrs:
+                        if attr in S.shared_mutable_names(kk.module): raise Unsupported("class-level container %s.%s is mutated in place somewhere in %s: its content depends on earlier calls" % (kk.name, attr, kk.module.name))
                         yield st, self.const_eval(kk.module, kk.attrs[attr], kk); return
             if base.cls in BUILTIN_EXC or attr in ("args",):
                 raise Unsupported("attr %s of %r" % (attr, base))
@@ -335,7 +337,9 @@ class Exec:
             yield st, BuiltinRef("object." + attr, bound=base.obj); return
         if isinstance(base, ClassRef):
             for kk in S.mro(base.info):
-                if attr in kk.attrs: yield st, self.const_eval(kk.module, kk.attrs[attr], kk); return
+                if attr in kk.attrs:
+                    if attr in S.shared_mutable_names(kk.module): raise Unsupported("class-level container %s.%s is mutated in place somewhere in %s: its content depends on earlier calls" % (kk.name, attr, kk.module.name))
+                    yield st, self.const_eval(kk.module, kk.attrs[attr], kk); return
                 if attr in kk.methods: yield st, FuncRef(kk.module, kk, kk.methods[attr], bound=None); return
             raise Unsupported("class attr %s.%s" % (base.info.name, attr))
         if isinstance(base, Sym) and base.ty.kind == "opt" and base.ty.args[0].kind in ("abs", "str"):
